@@ -22,4 +22,34 @@ JudgeMore(e) ==
     [] e.ev = "call"   -> Judge_call(e)
     [] e.ev = "optseq" -> Judge_optseq(e)
     [] OTHER -> << Chk("TOOL", "TOOL", "unknown event kind", FALSE) >>
+
+(* ---------- which recorded cases are non-trivial (evidence: distinct_nontrivial) ---------- *)
+\* An event counts as non-trivial for the evidence only if, beyond being judged, it exercised the mechanism the
+\* property is about: several lines / words / pieces / rows, an actual change of the text, a relation whose
+\* precondition held.
+NonTrivial(e) ==
+  CASE e.ev = "wrap"   -> Ok(e) /\ Len(e.lines) >= 2
+    [] e.ev = "fill"   -> Ok(e) /\ Len(e.wlines) >= 2
+    [] e.ev = "frag"   -> e.status = "ok" /\ Len(e.shape) >= 2
+    [] e.ev = "dw"     -> Ok(e) /\ (HasEsc(e.s) \/ \E i \in 1..Len(e.s) : e.s[i] >= 128)
+    [] e.ev = "scalars" -> TRUE
+    [] e.ev = "dwrel"  -> Len(e.a) > 0 /\ Len(e.b) > 0
+    [] e.ev = "words"  -> Ok(e) /\ Len(e.res) >= 2
+    [] e.ev = "split"  -> Ok(e) /\ Len(e.res) > Len(e.words)
+    [] e.ev = "break"  -> Ok(e) /\ Len(e.res) > Len(e.words)
+    [] e.ev = "c05"    -> Ok(e) /\ Len(e.slow) >= 1 /\ (Len(e.slow) >= 2 \/ ByteLen(e.text) > Len(e.text))
+    [] e.ev = "c08"    -> Ok(e) /\ Len(e.l1) >= 2
+    [] e.ev = "c09"    -> Ok(e) /\ Len(e.rab) >= 3
+    [] e.ev = "c13"    -> C13Considered(e) /\ Len(e.rc) >= 2
+    [] e.ev = "c14"    -> Ok(e) /\ C14Applies(e) /\ Contains(e.f1, LF)
+    [] e.ev = "c15"    -> Ok(e) /\ C15Applies(e) /\ Contains(e.filled, LF)
+    [] e.ev = "c16"    -> Ok(e) /\ Contains(e.filled, LF) /\ e.refilled # e.filled
+    [] e.ev = "c17"    -> Ok(e) /\ e.res # e.text
+    [] e.ev = "c18"    -> Ok(e) /\ e.d1 # e.s
+    [] e.ev = "c20"    -> Ok(e) /\ Len(e.rows) >= 2
+    [] e.ev = "unfill" -> Ok(e) /\ Len(Lines(e.s)) >= 2
+    [] e.ev = "dedent" -> Ok(e) /\ e.res # e.s
+    [] e.ev = "indent" -> Ok(e) /\ Contains(e.s, LF) /\ Len(e.p) > 0
+    [] e.ev = "optseq" -> Len(e.ops) >= 1
+    [] OTHER -> FALSE
 =============================================================================
